@@ -1,11 +1,16 @@
 """Regenerates lean/Verif/Gen/ClientOps.lean from `class MCPClient` (src/chuk_mcp/client/client.py) on
 every run: the SHAPE of the high-level client that `Model/ClientApi.clientSeq` assumes —
 
-* every public operation awaits `self._ensure_initialized()` first and then awaits exactly ONE
-  `send_*` request helper;
-* `_ensure_initialized` is `if not self.initialized: await self.initialize()`;
-* `initialize` returns early when `self.initialized` is set, and sets it only AFTER
+* every public operation first awaits `self.initialize()` — only on the path where `self.initialized`
+  is not set — and then awaits exactly ONE `send_*` request helper;
+* `_ensure_initialized` awaits `self.initialize()` exactly when the flag is not set;
+* `initialize` causes no traffic when `self.initialized` is set, and sets the flag only AFTER
   `await send_initialize(...)` came back (an exception leaves the client uninitialized).
+
+The method bodies are LINEARISED first: private methods of the class (awaited or not) are inlined,
+`if self.initialized:` / `if not self.initialized:` with early returns are followed as guards, so
+extracting helpers (`_session_streams()`, `_handshake()`), early returns vs nested ifs and reordered
+independent statements all give the same table.
 
 Anything else is not guessed: `translatable := false` and a report line.  SUPPLEMENTARY: the theorem
 about this file is reported as INFO; the `client-calls` correspondence compares the model with the
@@ -51,6 +56,88 @@ def _assigns_initialized(stmt):
     return vals
 
 
+def _lin(methods, stmts, ctx, depth):
+    """Linearise statements: -> (events, ctx after, always returned).  ctx in {"any", "init", "uninit"}
+    says what is known about `self.initialized` at that point; awaited PRIVATE methods of the class are
+    inlined; events are ("await", callee, ctx) and ("assign", constant, ctx)."""
+    events = []
+    for st in stmts:
+        if translate._is_effect_free(st):
+            continue
+        if isinstance(st, ast.If):
+            t = st.test
+            pos = _is_self_attr(t, "initialized")
+            neg = isinstance(t, ast.UnaryOp) and isinstance(t.op, ast.Not) and _is_self_attr(t.operand, "initialized")
+            if pos or neg:
+                b_ctx, e_ctx = ("init", "uninit") if pos else ("uninit", "init")
+                if ctx != "any":  # already known: one branch is dead
+                    b_ctx = e_ctx = ctx
+                ev1, _, r1 = _lin(methods, st.body, b_ctx, depth)
+                ev2, _, r2 = _lin(methods, st.orelse, e_ctx, depth)
+                if ctx == "any" or ctx == ("init" if pos else "uninit"):
+                    events += ev1
+                if ctx == "any" or ctx == ("uninit" if pos else "init"):
+                    events += ev2
+                if ctx == "any":
+                    if r1 and not r2:
+                        ctx = e_ctx
+                    elif r2 and not r1:
+                        ctx = b_ctx
+                    elif r1 and r2:
+                        return events, ctx, True
+                continue
+            ev0 = _expr_events(methods, t, ctx, depth)
+            ev1, _, r1 = _lin(methods, st.body, ctx, depth)
+            ev2, _, r2 = _lin(methods, st.orelse, ctx, depth)
+            events += ev0 + ev1 + ev2
+            if r1 and r2:
+                return events, ctx, True
+            continue
+        if isinstance(st, ast.Try):
+            for part in (st.body, *[h.body for h in st.handlers], st.orelse, st.finalbody):
+                ev, _, _ = _lin(methods, part, ctx, depth)
+                events += ev
+            continue
+        if isinstance(st, (ast.With, ast.AsyncWith, ast.For, ast.AsyncFor, ast.While)):
+            ev, _, _ = _lin(methods, st.body, ctx, depth)
+            events += ev
+            continue
+        events += _expr_events(methods, st, ctx, depth)
+        for v in _assigns_initialized(st):
+            events.append(("assign", v, ctx))
+        if isinstance(st, (ast.Return, ast.Raise)):
+            return events, ctx, True
+    return events, ctx, False
+
+
+def _expr_events(methods, node, ctx, depth, reached=None):
+    """awaits (and inlined private methods of the class, awaited or not) inside one statement, in source order"""
+    out = []
+    items = []
+    for n in ast.walk(node):
+        if isinstance(n, ast.Call) and isinstance(n.func, ast.Attribute) and isinstance(n.func.value, ast.Name) \
+                and n.func.value.id == "self" and n.func.attr.startswith("_") and n.func.attr in methods:
+            items.append((n.lineno, n.col_offset, "inline", n.func.attr))
+        elif isinstance(n, ast.Await) and isinstance(n.value, ast.Call):
+            f = n.value.func
+            if isinstance(f, ast.Attribute) and isinstance(f.value, ast.Name) and f.value.id == "self" \
+                    and f.attr.startswith("_") and f.attr in methods:
+                continue  # the Call node inside is inlined
+            items.append((n.lineno, n.col_offset, "await", f.id if isinstance(f, ast.Name) else ast.unparse(f)))
+    for _, _, kind, name in sorted(items):
+        if kind == "inline":
+            if depth < 4:
+                _REACHED.add(name)
+                ev, _, _ = _lin(methods, methods[name].body, ctx, depth + 1)
+                out += ev
+        else:
+            out.append(("await", name, ctx))
+    return out
+
+
+_REACHED = set()
+
+
 @translate.register("ClientOps")
 def gen_client_ops(src):
     report = {"file": "Gen/ClientOps.lean", "untranslatable": []}
@@ -64,37 +151,42 @@ def gen_client_ops(src):
         for name, fn in methods.items():
             if name.startswith("_") or name == "initialize" or not isinstance(fn, ast.AsyncFunctionDef):
                 continue
-            body = _body(fn)
-            first = body[0] if body else None
-            ensures = (isinstance(first, ast.Expr) and isinstance(first.value, ast.Await) and isinstance(first.value.value, ast.Call)
-                       and _is_self_attr(first.value.value.func, "_ensure_initialized") and not first.value.value.args)
-            helpers = [c for c in _awaited_calls(fn) if c.startswith("send_")]
-            others = [c for c in _awaited_calls(fn) if not c.startswith("send_") and c != "self._ensure_initialized"]
+            ev, _, _ = _lin(methods, fn.body, "any", 0)
+            aw = [e for e in ev if e[0] == "await"]
+            if any(e[0] == "assign" for e in ev):
+                raise Untranslatable(f"{name} assigns self.initialized")
+            helpers = [e[1] for e in aw if e[1].startswith("send_")]
+            others = [e for e in aw if not e[1].startswith("send_") and e[1] != "self.initialize"]
             if others:
-                raise Untranslatable(f"{name}: awaits {others[0]} besides the helper")
+                raise Untranslatable(f"{name}: awaits {others[0][1]} besides initialize and the helper")
+            # lazily initialized first: the first awaited thing is `self.initialize()`, reached only
+            # when the flag is not set; then the helper(s)
+            ensures = bool(aw) and aw[0][1] == "self.initialize" and aw[0][2] == "uninit" \
+                and sum(1 for e in aw if e[1] == "self.initialize") == 1
             ops.append((name, ensures, helpers[0] if helpers else "", len(helpers)))
         ens = methods.get("_ensure_initialized")
-        if ens is None:
-            raise Untranslatable("_ensure_initialized not found")
-        eb = _body(ens)
-        ensure_ok = (len(eb) == 1 and isinstance(eb[0], ast.If) and not eb[0].orelse
-                     and isinstance(eb[0].test, ast.UnaryOp) and isinstance(eb[0].test.op, ast.Not) and _is_self_attr(eb[0].test.operand, "initialized")
-                     and _awaited_calls(eb[0]) == ["self.initialize"] and len(_body(eb[0])) == 1)
+        if ens is not None:
+            ev, _, _ = _lin(methods, ens.body, "any", 0)
+            ensure_ok = ev == [("await", "self.initialize", "uninit")]
+        else:
+            ensure_ok = all(o[1] for o in ops) and bool(ops)  # inlined into the operations
         init = methods.get("initialize")
         if init is None:
             raise Untranslatable("initialize not found")
-        ib = _body(init)
-        g = ib[0] if ib else None
-        guard_first = (isinstance(g, ast.If) and _is_self_attr(g.test, "initialized") and not g.orelse
-                       and any(isinstance(s, ast.Return) for s in g.body) and not _awaited_calls(g))
-        idx_await = [i for i, s in enumerate(ib) if "send_initialize" in _awaited_calls(s)]
-        if len(idx_await) != 1:
-            raise Untranslatable("initialize: expected exactly one statement awaiting send_initialize")
-        assigns = [(i, v) for i, s in enumerate(ib) for v in _assigns_initialized(s)]
-        sets_after = bool(assigns) and all(i > idx_await[0] and v is True for i, v in assigns)
-        # nothing but initialize() may set the flag
+        _REACHED.clear()
+        ev, _, _ = _lin(methods, init.body, "any", 0)
+        from_init = set(_REACHED)
+        aw = [e for e in ev if e[0] == "await"]
+        guard_first = bool(aw) and all(e[2] == "uninit" for e in aw)
+        idx = [i for i, e in enumerate(ev) if e[0] == "await" and e[1] == "send_initialize"]
+        if len(idx) != 1:
+            raise Untranslatable("initialize: expected exactly one await of send_initialize")
+        assigns = [(i, e[1]) for i, e in enumerate(ev) if e[0] == "assign"]
+        sets_after = bool(assigns) and all(i > idx[0] and v is True for i, v in assigns)
         for name, fn in methods.items():
-            if name not in ("initialize", "__init__") and any(_assigns_initialized(s) for s in fn.body):
+            if name in ("initialize", "__init__") or name in from_init:
+                continue
+            if any(_assigns_initialized(s) for s in fn.body):
                 raise Untranslatable(f"{name} assigns self.initialized")
     except Untranslatable as ex:
         report["untranslatable"].append(f"client.py: MCPClient: {ex}")
